@@ -10,9 +10,9 @@ theorem pgl_zero (G : GCtx) : PGL G 0 := by
   rw [loopRun]; trivial
 
 /-- Rebuild the invariant at the loop level from the scope relation (everything else is static). -/
-theorem GRel.of_scopes {G : GCtx} {A : Act} {scopes vm ss mem ss' mem'} (h : GRel G A scopes vm ss mem)
-    (hs : ScopesRel A.T A.σ G.lim A.mp mem' scopes ss') : GRel G A scopes vm ss' mem' :=
-  ⟨⟨hs, h.rel.nodup, h.rel.inN, h.rel.named⟩, h.key⟩
+theorem GRel.of_scopes {G : GCtx} {A : Act} {scopes vm ss mem ss'} {mem' : Mem} (h : GRel G A scopes vm ss mem)
+    (hs : ScopesRel A.T A.σ G.lim A.mp mem'.cells scopes ss' ∧ GhostOK A mem') : GRel G A scopes vm ss' mem' :=
+  ⟨⟨hs.1, h.rel.nodup, h.rel.inN, h.rel.named⟩, h.key, hs.2, h.ghostC⟩
 
 theorem pgl_step (G : GCtx) (n : Nat) (hPE : PE G n) (hPB : PGBS G n) (hPL : PGL G n) : PGL G (n + 1) := by
   intro A hA loops lscopes d sp cnd body env spec ip stk mem
@@ -20,7 +20,7 @@ theorem pgl_step (G : GCtx) (n : Nat) (hPE : PE G n) (hPB : PGBS G n) (hPL : PGL
   | some c =>
     intro stmt hs hT hws hN hpl hls hrel hsp
     have hs' := hs
-    simp only [stmt, Frag.okGS, Bool.and_eq_true] at hs'
+    simp only [stmt, Frag.okFS, Bool.and_eq_true] at hs'
     obtain ⟨hcnd, hbody⟩ := hs'
     have hws' := hws
     simp only [stmt, Frag.wsGS, Bool.and_eq_true] at hws'
@@ -62,8 +62,8 @@ theorem pgl_step (G : GCtx) (n : Nat) (hPE : PE G n) (hPB : PGBS G n) (hPL : PGL
       have hrel1 : GRel G A env.scopes env.vm st1.scopes mem1 := by rw [hfr]; exact hrel.memLe hml
       cases v <;> try trivial
       rename_i bv
-      have hjif := Runs.of_runsTo (RunsTo.of_exec1 (fun k =>
-        reach_jumpIfFalse G.code G.lim (baseOf G.s A.fn A.rest A.mp st1.world) _ k stk mem1 ⟨A.fn, 0⟩ A.rest A.c rfl
+      have hjif := Runs.of_runsTo (fr := G.fr) (fun it_ => RunsTo.of_exec1 (fun k =>
+        reach_jumpIfFalse G.code G.lim (baseOf (withIt G.s it_) A.fn A.rest A.mp st1.world) _ k stk mem1 ⟨A.fn, 0⟩ A.rest A.c rfl
           hA.code (A.lab after.1) sp bv none ijif))
       cases bv with
       | false =>
@@ -72,25 +72,25 @@ theorem pgl_step (G : GCtx) (n : Nat) (hPE : PE G n) (hPB : PGBS G n) (hPL : PGL
         omega
       | true =>
         simp only []
-        have hpre : Runs G.code G.lim G.s A.fn A.rest A.mp ip stk mem spec.world (ip + (nI cc.1 + 1)) stk mem1 st1.world :=
+        have hpre : Runs G.fr G.code G.lim G.s A.fn A.rest A.mp ip stk mem spec.world (ip + (nI cc.1 + 1)) stk mem1 st1.world :=
           (hrun.trans hjif).cast (by simp only [if_true]; omega)
-        have hml0 : MemLe (A.mp - (A.nv : Int)) mem mem1 := hml.mono (by omega)
+        have hml0 : MemLe G.fr (A.mp - (A.nv : Int)) mem mem1 := hml.mono (by omega)
         have hb := hPB A hA ((after.1, head.1) :: loops) env.scopes 0 body { env with lm := cc.2 } st1
           (ip + (nI cc.1 + 1)) stk mem1 hbody (fun x hx => hT' x (Or.inr hx)) hwb
           (fun m hm => hN' m (Or.inl (Or.inr (hB ▸ hm)))) (hB ▸ hplB) rfl hrel1 hsp1
         rw [hB] at hb
         rcases hbe : inScope (evalBlock G.cfg n body) st1 with ⟨r2, s'⟩
         rw [hbe] at hb
-        have hjump : ∀ memx outx, Runs G.code G.lim G.s A.fn A.rest A.mp (ip + (nI cc.1 + 1) + nI cb.1) stk memx outx
+        have hjump : ∀ memx outx, Runs G.fr G.code G.lim G.s A.fn A.rest A.mp (ip + (nI cc.1 + 1) + nI cb.1) stk memx outx
             ip stk memx outx := fun memx outx =>
-          (Runs.of_runsTo (RunsTo.of_exec1 (fun k => reach_jump G.code G.lim (baseOf G.s A.fn A.rest A.mp outx) _ k stk
+          (Runs.of_runsTo (fr := G.fr) (fun it_ => RunsTo.of_exec1 (fun k => reach_jump G.code G.lim (baseOf (withIt G.s it_) A.fn A.rest A.mp outx) _ k stk
             memx ⟨A.fn, 0⟩ A.rest A.c rfl hA.code (A.lab head.1) sp (by rw [Nat.add_assoc]; exact ijmp)))).cast ehead
         -- the next round, from the loop head
-        have again : ∀ (s' : St) (mem2 : List (Int × Val)),
+        have again : ∀ (s' : St) (mem2 : Mem),
             s' = { st1 with scopes := s'.scopes, out := s'.out, heap := s'.heap } →
-            Runs G.code G.lim G.s A.fn A.rest A.mp (ip + (nI cc.1 + 1)) stk mem1 st1.world ip stk mem2 s'.world →
-            MemLe (A.mp - (A.nv : Int)) mem1 mem2 →
-            ScopesRel A.T A.σ G.lim A.mp mem2 env.scopes s'.scopes →
+            Runs G.fr G.code G.lim G.s A.fn A.rest A.mp (ip + (nI cc.1 + 1)) stk mem1 st1.world ip stk mem2 s'.world →
+            MemLe G.fr (A.mp - (A.nv : Int)) mem1 mem2 →
+            (ScopesRel A.T A.σ G.lim A.mp mem2.cells env.scopes s'.scopes ∧ GhostOK A mem2) →
             SimGS G A loops lscopes d ip (nI cc.1 + 1 + nI cb.1 + 1) stk mem (GRel G A env.scopes env.vm) spec
               (loopRun G.cfg n (some c) body s') := by
           intro s' mem2 hfr2 hround hml2 hsr
@@ -112,7 +112,7 @@ theorem pgl_step (G : GCtx) (n : Nat) (hPE : PE G n) (hPB : PGBS G n) (hPL : PGL
           simp only []
           have hscB : cb.2.scopes = env.scopes := by rw [← hB, cgBS_scopes]
           rw [hscB] at hrelB
-          exact again s' mem2 hfr2 (hrunB.trans (hjump mem2 s'.world)) hml2 hrelB.rel.scopes
+          exact again s' mem2 hfr2 (hrunB.trans (hjump mem2 s'.world)) hml2 ⟨hrelB.rel.scopes, hrelB.ghost⟩
         | error ce' =>
           cases ce'
           case brk =>
@@ -135,11 +135,11 @@ theorem pgl_step (G : GCtx) (n : Nat) (hPE : PE G n) (hPB : PGBS G n) (hPL : PGL
             simp only []
             refine ⟨by rw [hfr2, hfr], mem2, Runs.throw [] hpre hT2, hml0.trans hml2, ?_⟩
             rw [hls]
-            exact ScopesRel.drop d (by simpa using hsr)
+            exact ⟨ScopesRel.drop d (by simpa using hsr.1), hsr.2⟩
   | none =>
     intro stmt hs hT hws hN hpl hls hrel hsp
     have hbody := hs
-    simp only [stmt, Frag.okGS] at hbody
+    simp only [stmt, Frag.okFS] at hbody
     have hwb := hws
     simp only [stmt, Frag.wsGS] at hwb
     have hT' := hT
@@ -166,15 +166,15 @@ theorem pgl_step (G : GCtx) (n : Nat) (hPE : PE G n) (hPB : PGBS G n) (hPL : PGL
     rw [hB] at hb
     rcases hbe : inScope (evalBlock G.cfg n body) spec with ⟨r2, s'⟩
     rw [hbe] at hb
-    have hjump : ∀ memx outx, Runs G.code G.lim G.s A.fn A.rest A.mp (ip + nI cb.1) stk memx outx
+    have hjump : ∀ memx outx, Runs G.fr G.code G.lim G.s A.fn A.rest A.mp (ip + nI cb.1) stk memx outx
         ip stk memx outx := fun memx outx =>
-      (Runs.of_runsTo (RunsTo.of_exec1 (fun k => reach_jump G.code G.lim (baseOf G.s A.fn A.rest A.mp outx) _ k stk
+      (Runs.of_runsTo (fr := G.fr) (fun it_ => RunsTo.of_exec1 (fun k => reach_jump G.code G.lim (baseOf (withIt G.s it_) A.fn A.rest A.mp outx) _ k stk
         memx ⟨A.fn, 0⟩ A.rest A.c rfl hA.code (A.lab head.1) sp ijmp))).cast ehead
-    have again : ∀ (s' : St) (mem2 : List (Int × Val)),
+    have again : ∀ (s' : St) (mem2 : Mem),
         s' = { spec with scopes := s'.scopes, out := s'.out, heap := s'.heap } →
-        Runs G.code G.lim G.s A.fn A.rest A.mp ip stk mem spec.world ip stk mem2 s'.world →
-        MemLe (A.mp - (A.nv : Int)) mem mem2 →
-        ScopesRel A.T A.σ G.lim A.mp mem2 env.scopes s'.scopes →
+        Runs G.fr G.code G.lim G.s A.fn A.rest A.mp ip stk mem spec.world ip stk mem2 s'.world →
+        MemLe G.fr (A.mp - (A.nv : Int)) mem mem2 →
+        (ScopesRel A.T A.σ G.lim A.mp mem2.cells env.scopes s'.scopes ∧ GhostOK A mem2) →
         SimGS G A loops lscopes d ip (nI cb.1 + 1) stk mem (GRel G A env.scopes env.vm) spec
           (loopRun G.cfg n none body s') := by
       intro s' mem2 hfr2 hround hml2 hsr
@@ -195,7 +195,7 @@ theorem pgl_step (G : GCtx) (n : Nat) (hPE : PE G n) (hPB : PGBS G n) (hPL : PGL
       simp only []
       have hscB : cb.2.scopes = env.scopes := by rw [← hB, cgBS_scopes]
       rw [hscB] at hrelB
-      exact again s' mem2 hfr2 (hrunB.trans (hjump mem2 s'.world)) hml2 hrelB.rel.scopes
+      exact again s' mem2 hfr2 (hrunB.trans (hjump mem2 s'.world)) hml2 ⟨hrelB.rel.scopes, hrelB.ghost⟩
     | error ce' =>
       cases ce'
       case brk =>
@@ -218,6 +218,6 @@ theorem pgl_step (G : GCtx) (n : Nat) (hPE : PE G n) (hPB : PGBS G n) (hPL : PGL
         simp only []
         refine ⟨hfr2, mem2, hT2, hml2, ?_⟩
         rw [hls]
-        exact ScopesRel.drop d (by simpa using hsr)
+        exact ⟨ScopesRel.drop d (by simpa using hsr.1), hsr.2⟩
 
 end HmsProofs.Sim
